@@ -16,7 +16,8 @@ import (
 
 // C17 — either / botheq groups are judged per object, all-empty and all-equal.
 
-var c17MemberTypes = []reflect.Type{gen.TString, gen.TString, gen.TInt, gen.TInt32, gen.TUint8, gen.TFloat64, gen.TBool, gen.TInt64, gen.TUint64, reflect.PointerTo(gen.TString), reflect.PointerTo(gen.TInt32), reflect.TypeOf([]int(nil)), reflect.TypeOf([]string(nil))}
+var c17MemberTypes = []reflect.Type{gen.TString, gen.TString, gen.TInt, gen.TInt32, gen.TUint8, gen.TFloat64, gen.TBool, gen.TInt64, gen.TUint64, reflect.PointerTo(gen.TString), reflect.PointerTo(gen.TInt32), reflect.TypeOf([]int(nil)), reflect.TypeOf([]string(nil)),
+	reflect.TypeOf((*interface{})(nil)).Elem()} // interface-typed members: nil is empty, and equal only to nil
 
 // c17Type builds a struct type with 2-6 group-tagged fields in 1-3 groups; the members of one
 // botheq group share a type. Returns the type and, per field, its group index (-1 = plain field).
@@ -114,6 +115,10 @@ func c17Value(rng *rand.Rand, t reflect.Type, gidx []int) (reflect.Value, string
 			f.SetFloat(float64(k) / 2)
 		case reflect.Bool:
 			f.SetBool(k%2 == 1)
+		case reflect.Interface:
+			if k != 0 {
+				f.Set(reflect.ValueOf([]interface{}{7, "a", 7.5, 8}[k%4]))
+			}
 		case reflect.Ptr: // a fresh pointer for every member: equal values live at different addresses
 			if k == 0 {
 				return
